@@ -308,12 +308,12 @@ def run(chk: Check):
                         "emissions are classified by content marker (copy marked 101/'copy', mutation 55/'mutated')"]
     if chk.tier == "quick":
         _table(chk, 2, ["falsy", "truthy", "raise"], CORE_UDP, ["none", "raise", "take"], ["plain", "cmdchat"], "n2-core")
-        _table(chk, 2, ["falsy", "raise"], ["falsy", "truthy", "take", "drop"], ["none", "take"], ["rlv"], "n2-rlv")
+        _table(chk, 2, ["falsy", "raise"], ["falsy", "truthy", "drop"], ["none", "take", "drop", "send"], ["rlv"], "n2-rlv")
         _table(chk, 1, ["falsy"], ALL_UDP, ["none", "falsy", "raise", "predraise", "take", "takesend", "drop", "send"], ["plain"], "n1-all")
     else:
         _table(chk, 2, ["falsy", "truthy", "raise"], ALL_UDP, ["none", "raise", "predraise", "take", "takesend"], ["plain", "cmdchat"], "n2-all")
         _table(chk, 3, ["falsy", "truthy", "raise"], ["falsy", "truthy", "raise", "take", "drop", "send"], ["none", "take"], ["plain"], "n3-core")
-        _table(chk, 2, ["falsy", "truthy", "raise"], CORE_UDP, ["none", "raise", "take"], ["rlv"], "n2-rlv")
+        _table(chk, 2, ["falsy", "truthy", "raise"], ["falsy", "truthy", "raise", "take", "drop", "send"], ["none", "raise", "take", "drop", "send"], ["rlv"], "n2-rlv")
     chk.cov["exhaustive"] = True
 
 
